@@ -726,6 +726,15 @@ class Evaluator:
         elif isinstance(t, (ast.Tuple, ast.List)):
             for i, e in enumerate(t.elts):
                 self.assign(e, self.item(v, Const(i)), fr, st)
+        elif isinstance(t, ast.Attribute) and getattr(self, "apply_writes", False):
+            # constructor mode: stores to the analysed object are applied (only on fully decided paths)
+            base = self.eval(t.value, fr)
+            if isinstance(base, Obj) and base.root:
+                if any(not (isinstance(c, Const) and c.value is True) for c in fr.live_cond):
+                    self.unsupported(st, fr, "store to self under an undecided condition (constructor mode)")
+                base.attrs[t.attr] = v
+                return
+            self.notes.append(("write", self.src(fr, st), ast.unparse(st)))
         elif isinstance(t, (ast.Attribute, ast.Subscript)):
             self.notes.append(("write", self.src(fr, st), ast.unparse(st)))
         else:
@@ -1205,6 +1214,21 @@ class Evaluator:
                 items.append(One(self.eval(e.elt, fr)))
             fr.env = saved
             return ListV(tuple(items), kind)
+        if isinstance(it, ListV) and all(isinstance(i, One) and i.cond is None for i in it.items) and len(it.items) <= 12 and g.ifs:
+            # concrete iteration with filters: keep the element when every filter folds to a truth value
+            items = []
+            decided = True
+            for i in it.items:
+                self.assign(g.target, i.value, fr, e)
+                tv = [self.truth(self.as_cond(self.eval(c, fr))) for c in g.ifs]
+                if any(t is None for t in tv):
+                    decided = False
+                    break
+                if all(tv):
+                    items.append(One(self.eval(e.elt, fr)))
+            fr.env = dict(saved)
+            if decided:
+                return ListV(tuple(items), kind)
         self.assign(g.target, Sym("elem", (it,)), fr, e)
         filt = conj([self.eval(c, fr) for c in g.ifs]) if g.ifs else None
         elt = self.eval(e.elt, fr)
@@ -1325,6 +1349,11 @@ class Evaluator:
             return Const(t) if t is not None else Sym("op", ("bool", a0))
         if name == "isinstance" and len(args) == 2:
             return self.isinstance(a0, args[1])
+        if name == "setattr" and len(args) == 3 and getattr(self, "apply_writes", False) and isinstance(a0, Obj) and a0.root and isinstance(args[1], Const):
+            if any(not (isinstance(c, Const) and c.value is True) for c in fr.live_cond):
+                self.unsupported(e, fr, "setattr on self under an undecided condition (constructor mode)")
+            a0.attrs[args[1].value] = args[2]
+            return Const(None)
         if name == "hasattr" and len(args) == 2 and isinstance(args[1], Const):
             if (self._is_plain_value(a0) or isinstance(a0, (Str, Const))) and args[1].value in ("get_sql", "nodes_", "replace_table"):
                 return Const(False)
@@ -1376,6 +1405,13 @@ class Evaluator:
             return ListV((RepI((One(Sym("elem", (a0,))),), a0),), "list")
         if name == "type" and len(args) == 1 and isinstance(a0, Obj):
             return ClassRef(a0.cls)
+        if name == "zip" and args and all(isinstance(a, ListV) and all(isinstance(i, One) and i.cond is None for i in a.items) for a in args):
+            n_ = min(len(a.items) for a in args)
+            return ListV(tuple(One(ListV(tuple(One(a.items[k].value) for a in args), "tuple")) for k in range(n_)), "list")
+        if name == "abs" and isinstance(a0, Const) and isinstance(a0.value, (int, float)):
+            return Const(abs(a0.value))
+        if name in ("max", "min") and args and all(isinstance(a, Const) and isinstance(a.value, (int, float)) for a in args) and len(args) > 1:
+            return Const((max if name == "max" else min)(a.value for a in args))
         if name == "int" and isinstance(a0, Const):
             try:
                 return Const(int(a0.value))
